@@ -147,6 +147,13 @@ CLAIMED = {
    "The statements read must equal the planned ones in count, order and text. For third-party formats the real `atlas migrate import` is run as well and the imported Atlas directory must validate and hold the same statement sequence.",
    "Injected literals are valid SQL literals of the dialect (MySQL backslashes doubled), as an inspector or HCL evaluation would yield them. No server executes the SQL. Three known findings are excluded by predicate and counted (evidence.excluded_known_findings).",
    "4/C07"),
+ "C20": ("exploration",
+   "rapid PBT with repetition, multi-process and concurrent execution under the Go race detector (byte-identity oracle) and a permutation metamorphic relation (statement multiset + equal resulting catalogs on a real SQLite engine)",
+   "For MySQL/PostgreSQL/SQLite schemas with two independent FK chains, enums and all index/check kinds, the plans (create/modify/drop: Cmd and reverse statements), DefaultFormatter files, the MemDir sum file and MarshalHCL bytes are computed 21 times in one process, in 3 fresh child processes, "
+   "and concurrently (the case 4x plus 4 unrelated cases in goroutines) in a test binary built with -race; all results must be byte-identical and the race detector silent. The real CLI's `schema inspect` (HCL and SQL), `schema diff` and `migrate hash` are run 5 times each in fresh processes. "
+   "Permutation: tables/enum types in another order (all dialects) and the inspected HCL's top-level blocks shuffled and spread over 1-3 files (SQLite; both variants planned and applied on a real engine) must give the same multiset of statements and equal catalogs.",
+   "The check owns no scheduler: races that need an interleaving the Go scheduler does not produce in these runs are not excluded. Only top-level declaration order is permuted (column order inside a table is semantic).",
+   "4/C20"),
 }
 PENDING_REASON = "check not built yet in this session (planned in DESIGN.md section 4; will be claimed once its quick check is green and sensitivity-tested)"
 
